@@ -14,7 +14,7 @@ MOne == {"cosine"}
 MaskNone == {{}}
 \* 4 conditions, 6 entries (12 13 14 23 24 34): entries missing from all RDMs
 Mask4a == {{1, 6}, {2, 3, 5}}          \* 4 resp. 3 entries left
-Mask4b == {{4}, {1, 6}}                \* 5 resp. 4 entries left
+Mask4b == {{4}}                        \* 5 entries left
 BySubj == {"subj"}
 ByGrp == {"grp"}
 ByBoth == {"subj", "grp"}
